@@ -397,6 +397,9 @@ class NodeScanner:
         self.nodes: List[int] = []
 
     def on_message_received(self, can_id: int):
+        if can_id > 0x7FF:
+            # Not an identifier of the pre-defined connection set
+            return
         service = can_id & 0x780
         node_id = can_id & 0x7F
         if node_id not in self.nodes and node_id != 0 and service in self.SERVICES:
